@@ -46,6 +46,8 @@ func runC03(r *Report) {
 	c03R9(r)
 	c03R10(r)
 	c03R11(r)
+	// eviction walks the table of torrents: a running torrent that is not in it is never evicted (C17.R4 re-evaluated)
+	c17Table(r, "R4")
 	_ = p
 }
 
